@@ -184,6 +184,29 @@ def obligations(cx):
                   statement="measurement points extracted for fitting are identical for molar and mass curve compositions")
             cx.ob("measurements.%s.point.%d" % (which, i), a.pc, band(eq(ma.f['x'], wj), eq(ma.f['t'], Tt), eq(ma.f['p'], P)), function=fnm,
                   statement="measurement point = (mass fraction of the feed point, curve temperature, permeance of the component)")
+    # ------------------------------------------------------------------ curves whose points are given in DIFFERENT bases (point by point): two concrete points
+    def mixed_curve(types):
+        ws = [var('wm0'), var('wm1')]
+        fc = PList([Obj('Composition', dict(p=(w if t_ == 'weight' else (w / M1) / (w / M1 + (1 - w) / M2)), type=t_), owner='external') for w, t_ in zip(ws, types)], owner='external')
+        fl = PList([(var('Jm1_%d' % i), var('Jm2_%d' % i)) for i in range(2)], owner='external')
+        perms = PList([(Obj('Permeance', dict(value=var('Pma%d' % i), units=CF.KG)), Obj('Permeance', dict(value=var('Pmb%d' % i), units=CF.KG))) for i in range(2)], owner='external')
+        return Obj('DiffusionCurve', dict(mixture=mix, membrane_name='m', feed_temperature=Tt, feed_compositions=fc, partial_fluxes=fl, permeate_temperature=None, permeate_pressure=None,
+                                         permeances=perms, comments=None), owner='external', tag=('curve', types))
+    hypm = [var('wm0') > 0, var('wm0') < 1, var('wm1') > 0, var('wm1') < 1, var('Pma0') >= 0, var('Pma1') >= 0, var('Pmb0') >= 0, var('Pmb1') >= 0] + W.mixture_pre()
+    getters = [('metric.' + a_, (lambda a_: (lambda o: (lambda ex: ex.getattr(o, a_))))(a_), 'DiffusionCurve.' + a_) for a_ in ('get_separation_factor', 'get_psi')]
+    for which in ('first', 'second'):
+        f_ = src.find('Measurements.from_diffusion_curve_' + which)
+        getters.append(('measurements.' + which, (lambda f_: (lambda o: (lambda ex: ex.call_function(f_, [o], {}, cls='Measurements', inline=True))))(f_), 'Measurements.from_diffusion_curve_' + which))
+    for label, getter, fnm in getters:
+        ref = returns(cx.explore(getter(mixed_curve(('weight', 'weight'))), contracts=ci, pre=hypm))
+        for types in (('weight', 'molar'), ('molar', 'weight')):
+            got = returns(cx.explore(getter(mixed_curve(types)), contracts=ci, pre=hypm))
+            t = "%s.mixed-basis.%s-%s" % (label, types[0], types[1])
+            cx.ob(t + ".paths", [], blit(len(ref) >= 1 and len(got) >= 1), kind='paths', function=fnm)
+            for i, (a, b) in enumerate(zip(ref, got)):
+                la, lb = leaves(a.value), leaves(b.value)
+                cx.ob("%s.%d" % (t, i), a.pc + b.pc, band(blit(len(la) == len(lb) and len(la) >= 2), *[eq(x_, y_) for x_, y_ in zip(la, lb)]), function=fnm,
+                      statement="a curve whose points are given partly in mass and partly in mole fractions gives the same %s as the all-mass curve" % label)
     set_level_measurements(cx, mix, Tt)
     cx.assume_note("fitted coefficients are compared only through their inputs (identical measurement points / identical find_best_fit application), as in the statement")
     cx.assume_note("solver and helper lemmas use get_partial_pressures / calculate_partial_fluxes by contract with their basis lemmas applied by rewriting")
@@ -199,8 +222,10 @@ def leaves(v, out=None):
     elif isinstance(v, (int, float)) and not isinstance(v, bool): out.append(lift(v))
     elif isinstance(v, Obj):
         for x in v.f.values(): leaves(x, out)
-    elif isinstance(v, tuple):
+    elif isinstance(v, (tuple, list)):
         for x in v: leaves(x, out)
+    elif isinstance(v, PList):
+        for x in v.items: leaves(x, out)
     return out
 
 
